@@ -21,7 +21,7 @@ func (c19) Rule() string {
 func (c19) Exhaustive(string) string { return "" }
 func (c19) Runs(tier string) int64 {
 	if tier == "thorough" {
-		return 3000000
+		return 8000000
 	}
 	return 60000
 }
